@@ -186,20 +186,33 @@ func FindCrashes(p *Prog, f *Func, budget int, want []ast.Node) (map[ast.Node]*W
 	for _, k := range inputs {
 		if k.kind == 'e' {
 			vals := enumValues(k.t)
-			enums = append(enums, vals...)
-			// one value outside the declared set
+			// values outside the declared set first (they usually leave the
+			// function early): the smallest one, the one just above the
+			// largest declared constant, and the ends of the type's range
+			declared := map[int64]bool{}
+			for _, v := range vals {
+				declared[v] = true
+			}
+			tr := TypeRange(basicInt(k.t), f.Pkg.TypesSizes)
+			var extra []int64
 			for c := int64(0); c < 256; c++ {
-				dup := false
-				for _, v := range vals {
-					if v == c {
-						dup = true
-					}
-				}
-				if !dup {
-					enums = append(enums, c)
+				if !declared[c] {
+					extra = append(extra, c)
 					break
 				}
 			}
+			if len(vals) > 0 {
+				extra = append(extra, vals[len(vals)-1]+1)
+			}
+			extra = append(extra, 127, 128, 255, tr.Hi)
+			seenE := map[int64]bool{}
+			for _, c := range extra {
+				if c >= tr.Lo && c <= tr.Hi && !declared[c] && !seenE[c] {
+					seenE[c] = true
+					enums = append(enums, c)
+				}
+			}
+			enums = append(enums, vals...)
 			break
 		}
 	}
